@@ -456,10 +456,18 @@ class TaskDef:
         if not self.graph_parents:
             # No parents at any point
             return True
-        if self.sequential:
-            # Implicit parents
-            return False
         parent_points = self.get_parent_points(point)
+        if self.sequential:
+            # Implicit parent: my previous instance. (It is before the cutoff
+            # only for my first instance at or after the cutoff, which nothing
+            # else will spawn if my graph parents are before the cutoff too.)
+            prevs = [
+                prev for seq in self.sequences
+                if (prev := seq.get_nearest_prev_point(point)) is not None
+            ]
+            if prevs:
+                parent_points.add(max(prevs))
+            return all(x < cutoff for x in parent_points)
         return (
             not parent_points
             or all(x < cutoff for x in parent_points)
